@@ -3,7 +3,7 @@
 import ast
 import re
 
-from ..model import AnalysisError
+from ..model import AnalysisError, ClassInfo
 from ..purity import Purity
 from ..runner import rule
 
@@ -135,3 +135,120 @@ def r3(ctx, R):
                 k = next(k for k, f in forms if f == dev)
                 R.bad(c, w, f'every term of the form {cnt.most_common(1)[0][0]}', f'the term for index {k} is {dev}')
             # sums whose terms all differ are written per dimension on purpose (different offsets / amplitudes): not judged
+
+
+class _Unk(Exception):
+    pass
+
+
+def _sym(n):
+    """AST -> sympy; calls / attributes / subscripts are opaque atoms, reshape/flatten are transparent, FFTs are linear"""
+    import sympy as sp
+    if isinstance(n, ast.Constant) and isinstance(n.value, (int, float)) and not isinstance(n.value, bool):
+        return sp.nsimplify(n.value)
+    if isinstance(n, ast.BinOp):
+        a, b = _sym(n.left), _sym(n.right)
+        t = type(n.op)
+        if t is ast.Add:
+            return a + b
+        if t is ast.Sub:
+            return a - b
+        if t is ast.Mult:
+            return a * b
+        if t is ast.Div:
+            return a / b
+        if t is ast.Pow:
+            return a ** b
+        raise _Unk(ast.unparse(n))
+    if isinstance(n, ast.UnaryOp) and isinstance(n.op, ast.USub):
+        return -_sym(n.operand)
+    if isinstance(n, ast.Call) and isinstance(n.func, ast.Attribute) and n.func.attr in ('reshape', 'flatten', 'ravel', 'copy'):
+        return _sym(n.func.value)
+    if isinstance(n, ast.Call) and re.sub(r'^(np|cp|self\.xp)\.fft\.', '', ast.unparse(n.func)) in ('irfft', 'rfft', 'ifft', 'fft', 'ifft2', 'fft2', 'irfft2', 'rfft2') and len(n.args) == 1 and not n.keywords:
+        inner = sp.expand(_sym(n.args[0]))
+        F = sp.Function(ast.unparse(n.func).split('.')[-1])
+        out = 0
+        for t in (inner.args if isinstance(inner, sp.Add) else [inner]):
+            dep = [x for x in t.free_symbols if re.search(r'(^|\W)u(\W|$)', str(x))] + [x for x in t.atoms(sp.Function)]
+            c, rest = t.as_independent(*dep, as_Add=False) if dep else (t, sp.Integer(1))
+            out += c * F(rest)
+        return out
+    if isinstance(n, (ast.Name, ast.Attribute, ast.Call, ast.Subscript)):
+        return sp.Symbol(re.sub(r'\s+', '', ast.unparse(n)))
+    raise _Unk(ast.unparse(n))
+
+
+def _rhs_total(fn, allow=()):
+    """sum of everything eval_f stores into the components of its result (straight-line bodies; stores under one of the
+    guards in `allow` are taken as unconditional - used when child and parent share the same guard)"""
+    from ..inline import facts
+    fs = facts(fn)
+    fv = [f[1] for f in fs if f[0] == 'assign' and re.search(r'dtype_f\(|f_init', f[2])]
+    if len(fv) != 1:
+        raise _Unk('result variable not unique')
+    V = re.escape(fv[0])
+    parts = {}
+    for f in fs:
+        if f[0] == 'store' and re.match(rf'^{V}(\.\w+)?(\[.*\])?$', f[1]):
+            if f[-1] and not set(f[-1]) <= set(allow):
+                raise _Unk('conditional store: ' + ' and '.join(f[-1]))
+            parts[f[1]] = _sym(ast.parse(f[2], mode='eval').body)
+        elif f[0] == 'aug' and re.match(rf'^{V}(\.\w+)?(\[.*\])?$', f[1]):
+            if f[-1] and not set(f[-1]) <= set(allow):
+                raise _Unk('conditional store: ' + ' and '.join(f[-1]))
+            v = _sym(ast.parse(f[3], mode='eval').body)
+            parts[f[1]] = parts.get(f[1], 0) + (v if f[2] == 'Add' else -v)
+    if not parts:
+        raise _Unk('no component store')
+    return sum(parts.values()), sorted(parts)
+
+
+NOT_SPLITTINGS = {
+    ('allencahn_front_finel', 'allencahn_front_fullyimplicit'): 'another discretisation of the reaction term (finite-element like), not a splitting of the parent',
+    ('fenics_heat_mass', 'fenics_heat'): 'mass-matrix formulation: the child returns M f',
+}
+
+
+@rule('C12', 'C12.R4', 'splittings of one problem sum to the same right-hand side: for every problem class that overrides eval_f of a sibling with another splitting (impl/expl, comp1/comp2, unsplit), the symbolic sum of its components equals the sum of the parent (operators as opaque atoms, reshape transparent, FFTs linear)', floor=14)
+def r4(ctx, R):
+    import sympy as sp
+    repo = ctx.repo
+    base = repo.cls('pySDC/core/problem.py', 'Problem')
+    for ci in repo.subclasses(base, strict=True):
+        if not repo.is_library(ci) or 'eval_f' not in ci.methods:
+            continue
+        par = [c for c in ci.mro[1:] if isinstance(c, ClassInfo) and 'eval_f' in c.methods and c is not base]
+        if not par:
+            continue
+        w = f'{ci.module.relpath}:{ci.name}.eval_f'
+        c = f'{ci.name}.eval_f :: sum of the components == sum of the components of {par[0].name}.eval_f'
+        if (ci.name, par[0].name) in NOT_SPLITTINGS:
+            R.exc(c, w, NOT_SPLITTINGS[(ci.name, par[0].name)])
+            continue
+        allow = ()
+        try:
+            try:
+                a, pa = _rhs_total(ci.methods['eval_f'])
+                b, pb = _rhs_total(par[0].methods['eval_f'])
+            except _Unk as e:
+                m = re.fullmatch(r'conditional store: (self\.eps > 0)', str(e))
+                if not m:
+                    raise
+                allow = (m.group(1),)  # the same physical guard in child and parent (reaction term present)
+                a, pa = _rhs_total(ci.methods['eval_f'], allow)
+                b, pb = _rhs_total(par[0].methods['eval_f'], allow)
+        except _Unk as e:
+            R.note(c, w, f'not decided: outside the vocabulary of the symbolic comparison ({str(e)[:60]})')
+            continue
+        R.fn(w)
+        d = sp.simplify(sp.expand(a - b))
+        # a stabilised variant shifts its implicit operator in __init__ (self.lap -= X): the explicit part must add X*u back
+        shift = 0
+        init = ci.methods.get('__init__')
+        if init is not None:
+            for s_ in ast.walk(init):
+                if isinstance(s_, ast.AugAssign) and isinstance(s_.op, ast.Sub) and ast.unparse(s_.target) == 'self.lap':
+                    shift += _sym(s_.value) * sp.Symbol(ci.methods['eval_f'].args.args[1].arg)
+        d = sp.simplify(sp.expand(d - shift))
+        what = f'components {pa} of the child sum to the same expression as {pb} of the parent' + (f' (the child subtracts {sp.simplify(shift)} through its shifted implicit operator and must add it back explicitly)' if shift != 0 else '')
+        R.check(d == 0, c, w, what, f'difference: {str(d)[:160]}' if d != 0 else 'equal')
